@@ -342,8 +342,7 @@ func (c19) Run(ctx *Ctx, ci interface{}) (o Outcome) {
 			// operation's own seed, by C16's generator, and compared with their snapshots when the stream is drained
 			isQuery = true
 			{
-				cc := c16{}.Gen(uint64(op.Seed), "quick", false).(*C16Case)
-				cc.BadAt = -1
+				cc := c16{}.Gen(uint64(op.Seed), "quick", false).(*C16Case) // (one case in four holds a 2-nt sequence: an error result)
 				orfs, seqs, _, _ := cc.bags()
 				if orfs != nil && op.Flag {
 					// a reference set put together through the API, its alphabet never detected
